@@ -22,7 +22,7 @@ pub const ASSUMPTIONS: &[&str] = &[
 ];
 
 pub fn cfg() -> GenCfg {
-    GenCfg { names: 3, self_dep_bias: 5, allow_dups_in_file: false, ..GenCfg::default() }
+    GenCfg { names: 3, self_dep_bias: 5, allow_dups_in_file: true, ..GenCfg::default() }
 }
 
 #[derive(Clone, Debug, serde::Serialize, serde::Deserialize)]
